@@ -25,10 +25,10 @@ import (
 	"go/ast"
 	"go/build"
 	"go/parser"
-	"go/printer"
 	"go/token"
 	"os"
 	"path/filepath"
+	"reflect"
 	"regexp"
 	"sort"
 	"strconv"
@@ -266,14 +266,26 @@ func isGenerated(f *ast.File) bool {
 
 // ---------------------------------------------------------------------------
 
-type instr struct {
-	p    *pkgInfo
-	file string
-	full bool
-	fn   string
+// An edit inserts (or, with del > 0, replaces) text at a byte offset of the
+// original source. Working on the source text instead of re-printing the AST
+// keeps every comment, every compiler directive and every line number of the
+// original file exactly where it was.
+type edit struct {
+	off  int
+	del  int
+	text string
+	seq  int
 }
 
-func (in *instr) newSite(pos token.Pos, kind string) uint32 {
+type instr struct {
+	p     *pkgInfo
+	file  string
+	full  bool
+	tf    *token.File
+	edits []edit
+}
+
+func (in *instr) newSite(pos token.Pos, kind, fn string) uint32 {
 	id := uint32(len(sites))
 	line := 0
 	if pos.IsValid() {
@@ -283,204 +295,138 @@ func (in *instr) newSite(pos token.Pos, kind string) uint32 {
 	if in.p.rel != "." {
 		rel = in.p.rel + "/" + in.file
 	}
-	sites = append(sites, site{ID: id, File: rel, Line: line, Func: in.fn, Kind: kind})
+	sites = append(sites, site{ID: id, File: rel, Line: line, Func: fn, Kind: kind})
 	return id
 }
 
-func yieldStmt(id uint32) ast.Stmt {
-	return &ast.ExprStmt{X: &ast.CallExpr{
-		Fun:  &ast.SelectorExpr{X: ast.NewIdent("simrt"), Sel: ast.NewIdent("Yield")},
-		Args: []ast.Expr{&ast.BasicLit{Kind: token.INT, Value: strconv.FormatUint(uint64(id), 10)}},
-	}}
+func (in *instr) insert(pos token.Pos, text string) {
+	in.edits = append(in.edits, edit{off: in.tf.Offset(pos), text: text, seq: len(in.edits)})
 }
 
-func (in *instr) block(list []ast.Stmt, entryPos token.Pos, entry bool) []ast.Stmt {
-	var outl []ast.Stmt
-	if entry {
-		outl = append(outl, yieldStmt(in.newSite(entryPos, "entry")))
-	}
+func (in *instr) replace(pos token.Pos, n int, text string) {
+	in.edits = append(in.edits, edit{off: in.tf.Offset(pos), del: n, text: text, seq: len(in.edits)})
+}
+
+func (in *instr) yieldAt(pos token.Pos, kind, fn string) {
+	in.insert(pos, fmt.Sprintf("simrt.Yield(%d); ", in.newSite(pos, kind, fn)))
+}
+
+// stmts instruments one statement list.
+func (in *instr) stmts(list []ast.Stmt, fn string) {
 	for _, s := range list {
-		in.stmt(s)
 		if in.full {
-			outl = append(outl, yieldStmt(in.newSite(s.Pos(), "stmt")))
-		}
-		outl = append(outl, in.rewriteGo(s))
-	}
-	return outl
-}
-
-// rewriteGo turns `go f(x)` into `simrt.Go(func() { f(x) })`. Argument
-// evaluation moves into the new task; the scheduler makes the spawn point
-// itself a yield, so the difference is one more interleaving, not a different
-// semantics for race-free code.
-func (in *instr) rewriteGo(s ast.Stmt) ast.Stmt {
-	g, ok := s.(*ast.GoStmt)
-	if !ok {
-		return s
-	}
-	goStmts++
-	return &ast.ExprStmt{X: &ast.CallExpr{
-		Fun: &ast.SelectorExpr{X: ast.NewIdent("simrt"), Sel: ast.NewIdent("Go")},
-		Args: []ast.Expr{&ast.FuncLit{
-			Type: &ast.FuncType{Params: &ast.FieldList{}},
-			Body: &ast.BlockStmt{List: []ast.Stmt{&ast.ExprStmt{X: g.Call}}},
-		}},
-	}}
-}
-
-func (in *instr) stmt(s ast.Stmt) {
-	switch t := s.(type) {
-	case *ast.BlockStmt:
-		t.List = in.block(t.List, t.Pos(), false)
-	case *ast.IfStmt:
-		in.exprs(t.Init, t.Cond)
-		in.stmt(t.Body)
-		if t.Else != nil {
-			in.stmt(t.Else)
-		}
-	case *ast.ForStmt:
-		in.exprs(t.Init, t.Cond, t.Post)
-		in.stmt(t.Body)
-	case *ast.RangeStmt:
-		in.exprs(t.X)
-		in.stmt(t.Body)
-	case *ast.SwitchStmt:
-		in.exprs(t.Init, t.Tag)
-		in.clauses(t.Body)
-	case *ast.TypeSwitchStmt:
-		in.exprs(t.Init, t.Assign)
-		in.clauses(t.Body)
-	case *ast.SelectStmt:
-		in.clauses(t.Body)
-	case *ast.CaseClause:
-		for _, e := range t.List {
-			in.exprs(e)
-		}
-		t.Body = in.block(t.Body, t.Pos(), false)
-	case *ast.CommClause:
-		t.Body = in.block(t.Body, t.Pos(), false)
-	case *ast.LabeledStmt:
-		in.stmt(t.Stmt)
-	default:
-		in.exprs(s)
-	}
-}
-
-func (in *instr) clauses(b *ast.BlockStmt) {
-	for _, c := range b.List {
-		in.stmt(c)
-	}
-}
-
-// exprs instruments function literals nested anywhere inside the given nodes.
-func (in *instr) exprs(nodes ...ast.Node) {
-	for _, n := range nodes {
-		if n == nil || isNilNode(n) {
-			continue
-		}
-		ast.Inspect(n, func(x ast.Node) bool {
-			if fl, ok := x.(*ast.FuncLit); ok {
-				saved := in.fn
-				in.fn = saved + ".func"
-				fl.Body.List = in.block(fl.Body.List, fl.Pos(), true)
-				in.fn = saved
-				return false
+			if _, isEmpty := s.(*ast.EmptyStmt); !isEmpty {
+				in.yieldAt(s.Pos(), "stmt", fn)
 			}
-			return true
-		})
+		}
+		in.walk(s, fn)
 	}
 }
 
-func isNilNode(n ast.Node) bool {
-	switch t := n.(type) {
-	case ast.Stmt:
-		return t == nil
-	case ast.Expr:
-		return t == nil
+// walk visits a node, instrumenting every nested block, function literal and
+// go statement.
+func (in *instr) walk(n ast.Node, fn string) {
+	if n == nil || reflect.ValueOf(n).IsNil() {
+		return
 	}
-	return false
+	ast.Inspect(n, func(x ast.Node) bool {
+		switch t := x.(type) {
+		case *ast.FuncLit:
+			lfn := fn + ".func"
+			in.yieldAt(t.Body.Lbrace+1, "entry", lfn)
+			in.stmts(t.Body.List, lfn)
+			return false
+		case *ast.BlockStmt:
+			in.stmts(t.List, fn)
+			return false
+		case *ast.SwitchStmt:
+			in.walk(t.Init, fn)
+			in.walk(t.Tag, fn)
+			for _, c := range t.Body.List {
+				in.walk(c, fn)
+			}
+			return false
+		case *ast.TypeSwitchStmt:
+			in.walk(t.Init, fn)
+			in.walk(t.Assign, fn)
+			for _, c := range t.Body.List {
+				in.walk(c, fn)
+			}
+			return false
+		case *ast.SelectStmt:
+			for _, c := range t.Body.List {
+				in.walk(c, fn)
+			}
+			return false
+		case *ast.CaseClause:
+			for _, e := range t.List {
+				in.walk(e, fn)
+			}
+			in.stmts(t.Body, fn)
+			return false
+		case *ast.CommClause:
+			if t.Comm != nil {
+				in.walk(t.Comm, fn)
+			}
+			in.stmts(t.Body, fn)
+			return false
+		case *ast.GoStmt:
+			// go f(x)  ->  simrt.Go(func() { f(x) })
+			// Argument evaluation moves into the new task; the spawn point is a
+			// scheduling point, so for race-free code this is one more
+			// interleaving, not a different semantics.
+			goStmts++
+			in.replace(t.Go, 2, "simrt.Go(func() {")
+			in.insert(t.End(), " })")
+			in.walk(t.Call, fn)
+			return false
+		}
+		return true
+	})
 }
 
 func instrumentFile(p *pkgInfo, name string, f *ast.File, full bool) string {
-	in := &instr{p: p, file: name, full: full}
-	// keep //go: directives that precede the package clause (build constraints)
-	var header []string
-	for _, cg := range f.Comments {
-		if cg.Pos() > f.Package {
-			break
-		}
-		for _, c := range cg.List {
-			if strings.HasPrefix(c.Text, "//go:build") || strings.HasPrefix(c.Text, "// +build") {
-				header = append(header, c.Text)
-			}
-		}
+	path := filepath.Join(p.dir, name)
+	src, err := os.ReadFile(path)
+	if err != nil {
+		die("%v", err)
 	}
-	// function-level //go: directives (noinline etc.) are kept via Doc
+	in := &instr{p: p, file: name, full: full, tf: fset.File(f.Pos())}
 	for _, d := range f.Decls {
 		fd, ok := d.(*ast.FuncDecl)
-		if !ok {
+		if !ok || fd.Body == nil {
 			continue
 		}
-		if fd.Doc != nil {
-			var keep []*ast.Comment
-			for _, c := range fd.Doc.List {
-				if strings.HasPrefix(c.Text, "//go:") {
-					keep = append(keep, c)
-				}
-			}
-			if len(keep) > 0 {
-				fd.Doc = &ast.CommentGroup{List: keep}
-			} else {
-				fd.Doc = nil
-			}
-		}
-		if fd.Body == nil {
-			continue
-		}
-		in.fn = fd.Name.Name
+		fn := fd.Name.Name
 		if fd.Recv != nil && len(fd.Recv.List) == 1 {
-			in.fn = recvName(fd.Recv.List[0].Type) + "." + fd.Name.Name
+			fn = recvName(fd.Recv.List[0].Type) + "." + fd.Name.Name
 		}
-		if in.fn == "init" {
+		if fn == "init" && fd.Recv == nil {
 			// package initialisation runs before any hook can be installed
 			continue
 		}
-		fd.Body.List = in.block(fd.Body.List, fd.Pos(), true)
+		in.yieldAt(fd.Body.Lbrace+1, "entry", fn)
+		in.stmts(fd.Body.List, fn)
 	}
-	// drop all free-floating comments: the printer may otherwise interleave
-	// them with inserted (position-less) statements.
-	var docs []*ast.CommentGroup
-	for _, d := range f.Decls {
-		if fd, ok := d.(*ast.FuncDecl); ok && fd.Doc != nil {
-			docs = append(docs, fd.Doc)
+	// the import rides on the package clause line, so line numbers do not move
+	in.insert(f.Name.End(), fmt.Sprintf("; import simrt %q", modPath+"/internal/simrt"))
+	// apply from the end of the file backwards
+	sort.SliceStable(in.edits, func(i, j int) bool {
+		if in.edits[i].off != in.edits[j].off {
+			return in.edits[i].off > in.edits[j].off
 		}
+		return in.edits[i].seq > in.edits[j].seq
+	})
+	out := append([]byte(nil), src...)
+	for _, e := range in.edits {
+		out = append(out[:e.off], append([]byte(e.text), out[e.off+e.del:]...)...)
 	}
-	f.Comments = docs
-	f.Doc = nil
-	// add the import as a separate declaration right after the existing imports
-	imp := &ast.GenDecl{Tok: token.IMPORT, Specs: []ast.Spec{&ast.ImportSpec{
-		Name: ast.NewIdent("simrt"),
-		Path: &ast.BasicLit{Kind: token.STRING, Value: strconv.Quote(modPath + "/internal/simrt")},
-	}}}
-	f.Decls = append([]ast.Decl{imp}, f.Decls...)
-
-	var b bytes.Buffer
-	for _, h := range header {
-		b.WriteString(h + "\n")
-	}
-	if len(header) > 0 {
-		b.WriteString("\n")
-	}
-	if err := printer.Fprint(&b, fset, f); err != nil {
-		die("print %s: %v", name, err)
-	}
-	b.WriteString("\nvar _ = simrt.Yield\n")
-	// sanity: result must parse
-	if _, err := parser.ParseFile(token.NewFileSet(), name, b.Bytes(), 0); err != nil {
-		os.WriteFile("/verif/.work/bad.go", b.Bytes(), 0o644)
+	out = append(out, []byte("\nvar _ = simrt.Yield\n")...)
+	if _, err := parser.ParseFile(token.NewFileSet(), name, out, 0); err != nil {
+		os.WriteFile("/verif/.work/bad.go", out, 0o644)
 		die("instrumented %s does not parse: %v", name, err)
 	}
-	return b.String()
+	return string(out)
 }
 
 func recvName(e ast.Expr) string {
